@@ -73,7 +73,7 @@ func entryName(id string) string { return fmt.Sprintf("%x.protobom", sha256.Sum2
 func init() {
 	core.Register(&core.Prop{
 		ID: "C19", Level: "exploration",
-		Rule: "each case is a history of <=10 Store/Retrieve calls (one fresh child process per call, uid 65534, public FileSystem backend) against a map model id->document: configured directory missing (one or three levels deep) or existing; identifiers with path separators, dot-dot, absolute paths, unicode, newline, 1 MB, empty; both no-clobber settings; nil options. " +
+		Rule: "each case is a history of <=10 Store/Retrieve calls (one fresh child process per call, uid 65534; the FileSystem backend directly or through writer.Writer.Store / reader.Reader.Retrieve) against a map model id->document: configured directory missing (one or three levels deep) or existing; identifiers with path separators, dot-dot, absolute paths, unicode, newline, 1 MB, empty; both no-clobber settings; nil options. " +
 			"After EVERY call: the result is compared with the model (proto.Equal), every known id is retrieved again (isolation), the scratch tree around the configured path is listed with content hashes (confinement: every file lies inside the directory; no-clobber: existing entry bytes unchanged). " +
 			"Fault steps: unknown id, entry chmod 000, a directory in place of the entry, 0-byte / truncated / bit-flipped entry, and - under the ptrace injector - EACCES/EIO/ENOSPC/EMFILE on the k-th file-system syscall of a Store or Retrieve for EVERY k of the fault-free run; " +
 			"every outcome must be a document or an error RETURN: never a dead process, neither/both, or an empty document. A sample of stores runs under the tracer to check that every created/renamed path is under the directory. distinct = hash of the history; non-trivial = history with >=2 different ids stored.",
@@ -134,7 +134,12 @@ func c19Case(c *core.C) {
 		c.Violatef(sig, map[string]any{"history": trace, "directory_kind": dirKind}, "history %v: %s", trace, fmt.Sprintf(format, a...))
 	}
 	retrieveCheck := func(id string, want *sbom.Document, ctx string) bool {
-		o := runChild(true, "retrieveone", "-dir", store, "-idfile", putFile([]byte(id)))
+		rargs := []string{"retrieveone", "-dir", store, "-idfile", putFile([]byte(id))}
+		if r.Intn(3) == 0 {
+			rargs = append(rargs, "-api") // through reader.Reader.Retrieve
+			c.Cover("retrieve-through-reader-api")
+		}
+		o := runChild(true, rargs...)
 		c.Evals(1)
 		switch o.kind {
 		case "DOC":
@@ -182,6 +187,10 @@ func c19Case(c *core.C) {
 			args = append(args, "-noclobber")
 		} else if r.Intn(4) == 0 {
 			args = append(args, "-nilopts")
+		}
+		if r.Intn(3) == 0 {
+			args = append(args, "-api") // through writer.Writer.Store
+			c.Cover("store-through-writer-api")
 		}
 		step := fmt.Sprintf("Store(%s%s)", short(id), map[bool]string{true: ",no-clobber", false: ""}[noclobber])
 		trace = append(trace, step)
